@@ -364,10 +364,10 @@ def run_valid_case(ctx, stream, tys, svs, pvs, fds, expected, mbatch, ubatch, of
 
 
 def violation_key(what):
-    if 'marshal raised' in what:
-        return 'roundtrip-marshal-raises'
-    if 'unmarshal raised' in what:
+    if what.startswith('unmarshal raised'):
         return 'roundtrip-unmarshal-raises'
+    if what.startswith('marshal raised'):
+        return 'roundtrip-marshal-raises'
     if 'consumed' in what or 'reports' in what:
         return 'roundtrip-byte-count'
     if 'descriptor' in what:
